@@ -32,7 +32,8 @@ CONSTANTS
     MaxReq,     \* bound on the number of requests
     InitTrees,  \* set of initial trees (functions location -> node; dirs/files only)
     MapRule,    \* "asis" | "strip"
-    Rewrite,    \* "asis" | "realdir" (proposed repair: judge the target from the
+    Rewrite,    \* "prefix" (sensitivity: string prefix test) |
+                \* "asis" | "realdir" (proposed repair: judge the target from the
                 \* directory the link really lands in) | "none" (sensitivity)
     Fuel,       \* symlink expansions per walk before ELOOP
     EmitEsc,    \* TRUE: print the request history of every escaping transition
@@ -60,10 +61,18 @@ vars == <<fs, n, esc, lbl, hist, itree>>
 view == <<fs, n, esc>>
 viewfs == <<fs, esc>>        \* script generation: every file-system shape once
 
-Base == (<<>> :> DirNode) @@ (Top :> DirNode) @@ (RootLoc :> DirNode)
+(* The outside of the root is a set of two nodes: a sibling whose NAME     *)
+(* shares a prefix with the root's ("Rx" next to "R": share / share-archive, *)
+(* user1 / user10) and an unrelated one ("U").  Both exist and are          *)
+(* directories; they are reachable only through escape-shaped targets.      *)
+SibLocs == {Append(Top, "Rx"), Append(Top, "U")}
+RootPrefixNames == {"R", "Rx"}      \* names that start with the root's name
+Base == (<<>> :> DirNode) @@ (Top :> DirNode) @@ (RootLoc :> DirNode) @@
+        [l \in SibLocs |-> DirNode]
 Universe == {RootLoc \o s : s \in SeqsUpTo(Names, 1, Depth)} \cup
-            {Top \o <<x>> : x \in Names}
-Fixed == {<<>>, Top, RootLoc}
+            {Top \o <<x>> : x \in Names} \cup
+            {Append(l, x) : l \in SibLocs, x \in Names}
+Fixed == {<<>>, Top, RootLoc} \cup SibLocs
 
 MP(p) == MapStr(p, MapRule)
 W(f, s, follow) == Walk(f, <<>>, s, follow, TRUE, Fuel)
@@ -178,6 +187,14 @@ Then(a, b) == IF a.st = "err" THEN a
 SymTarget(f, old, new) ==
     IF Rewrite = "none" THEN old
     ELSE IF IsAbs(old) THEN MP(old)
+    ELSE IF Rewrite = "prefix" THEN
+         \* (sensitivity) confinement decided by a string prefix test without a
+         \* trailing separator: realpath(abspath2).startswith(chroot)
+         LET ap1 == MP(Join(Dirname(new), old))
+             rnd == <<"">> \o Real(f, Dirname(MP(new)))
+             r2 == Real(f, Join(IF rnd = <<"">> THEN <<"", "">> ELSE rnd, old)) IN
+         IF ~(Len(r2) >= 2 /\ r2[1] = "T" /\ r2[2] \in RootPrefixNames)
+         THEN RelPath(ap1, IF rnd = <<"">> THEN <<"", "">> ELSE rnd) ELSE old
     ELSE IF Rewrite = "realdir" THEN
          LET ap1 == MP(Join(Dirname(new), old))
              rnd == <<"">> \o Real(f, Dirname(MP(new)))   \* realpath(dirname(mapped new))
